@@ -196,6 +196,27 @@ def vm_of_run(ident):
     return m.group(1) if m else None
 
 
+# worker restrictions as written in nets.cfg (transcribed, not read through the code under test)
+WORKER_RESTR = {"net3": {"vm1": "only CentOS,Fedora\n", "vm2": "no WinXP,Win8\n"}, "net5": {"vm1": "only Fedora\n", "vm2": "no Win7\n"}}
+
+
+def worker_ok(worker, case, vm, var):
+    """Can the worker take part in updating this variant of the vm?  Its own restrictions must admit the variant and leave at least one
+    variant of every other available vm (the worker's environment is parsed with all of them)."""
+    from vt.e4.parsemc import admits
+
+    restr = WORKER_RESTR.get(worker, {})
+    if not admits(restr.get(vm, ""), var):
+        return False
+    for other in AVAILABLE_VMS:
+        if other == vm:
+            continue
+        avail = (case.get("vm_strs") or {}).get(other, AVAILABLE_VMS[other])
+        if not any(admits(restr.get(other, ""), v) for v in variants_of(other, avail)):
+            return False
+    return True
+
+
 _variants = {}
 
 
@@ -253,6 +274,11 @@ def run(tier: str, seed: int) -> int:
     cases.append({"vms": ["vm1"], "nets": "net1 net2", "from": "customize", "to": "connect", "vm_strs": {"vm1": ""}})
     cases.append({"vms": ["vm1"], "nets": "net1", "from": "customize", "to": "connect", "vm_strs": {"vm1": "only Fedora\n"}})
     cases.append({"vms": ["vm1", "vm2"], "nets": "net1 net2", "from": "customize", "to": "customize", "vm_strs": {"vm1": "", "vm2": ""}})
+    # workers whose own restrictions exclude the vm variants, before / between / after compatible ones
+    for nets in ("net5 net1", "net1 net5 net2", "net1 net2 net5", "net3 net5 net1"):
+        cases.append({"vms": ["vm1"], "nets": nets, "from": "customize", "to": "customize"})
+        cases.append({"vms": ["vm2"], "nets": nets, "from": None, "to": None})
+    cases.append({"vms": ["vm1"], "nets": "net5 net1", "from": "customize", "to": "customize", "vm_strs": {"vm1": ""}})
     # schedule deviations: for multi-worker cases every single non-default choice
     results = list(common.pmap(analyse, cases))
     extra = []
@@ -306,6 +332,8 @@ def run(tier: str, seed: int) -> int:
                 v_ = var if c.get("vm_strs") else None
                 path = res.path(vm, frm, to, v_)
                 derived = res.derived_states(vm, to, c.get("remove_set") or "leaves", v_)
+                if not any(worker_ok(w, c, vm, var) for w in workers):
+                    continue  # no worker can take this variant: nothing to run or remove
                 for s in path:
                     exp_runs.add((vm, s, var))
                 exp_unsets |= {(vm, s, var) for s in derived}
@@ -336,8 +364,9 @@ def run(tier: str, seed: int) -> int:
         if True:
             for k in exp_unsets:
                 ws = got_unsets.get(k, set())
-                if set(workers) - ws:
-                    rep.violation(f"[{cid}] derived state {k[1]} of {k[0]} [{k[2]}] was not removed on workers {sorted(set(workers) - ws)}", inp, {"kind": "missing-unset", "state": k[1]})
+                need = {w for w in workers if worker_ok(w, c, k[0], k[2])}
+                if need - ws:
+                    rep.violation(f"[{cid}] derived state {k[1]} of {k[0]} [{k[2]}] was not removed on workers {sorted(need - ws)}", inp, {"kind": "missing-unset", "state": k[1]})
         if r["door_gets"]:
             rep.note("state copy requests were issued during update")
         rep.distinct.add((cid, json.dumps(sorted(map(str, got_runs))), json.dumps(sorted(map(str, got_unsets)))))
